@@ -1,3 +1,4 @@
+import json
 """C08 - concurrent shells lose nothing (engine `conc`).
 
 Proof stage: coq/Properties/C08.v (interleaving models Conc/*.v, invariants Conc/*Proofs.v).
@@ -107,6 +108,26 @@ def run_harness(binp, jobs, outdir):
     with ThreadPoolExecutor(max_workers=5) as ex:
         return list(ex.map(one, jobs))
 
+def legacy_stream_stage(run, reps):
+    """capability/shell_stream.rs: the stream's channel check and waker registration are one critical section with the
+    resolve callback's send-and-wake.  One shell thread is parked inside the consuming task's first poll at the moment
+    the waker is cloned (a waker whose clone can be paused - no hook), while another thread's call is handed the stream
+    request and answers it: the value must be applied, exactly as in every sequential order of the two calls."""
+    ok, log, bins = C.harness_build(["legacy_conc"])
+    run.oblige("harness-build legacy_conc (dev, --cfg crux_verif) from the repository's working tree", ok, log[-1500:])
+    if not ok: return
+    rc, out = C.sh("timeout 300 %s %d" % (bins["legacy_conc"], reps), timeout=400)
+    rows = [json.loads(l) for l in out.splitlines() if l.startswith("{")]
+    bad = [r for r in rows if not r.get("ok")]
+    run.oblige("legacy ShellStream: a value resolved while the consuming task is parking is not lost (%d runs)" % len(rows),
+               rc == 0 and len(rows) == reps and not bad, json.dumps(bad[:2])[:2000] or out[-500:])
+    for r in rows:
+        run.note_case(("legacy_stream", r.get("rep")), nontrivial=True); run.cov["traces_validated_against_impl"] += 1
+    if bad:
+        run.violation("legacy_stream_lost_value", {"property": "C08", "what": "a stream value that the legacy capability API accepted while another shell thread was inside the consuming task's poll was never applied (lost wake-up between the channel check and the waker registration of ShellStream::poll_next)",
+                                                    "cases": bad[:5], "how_to_replay": ".cache/target/debug/legacy_conc <repetitions> (harness/src/bin/legacy_conc.rs)"})
+    run.trusted += ["harness/src/bin/legacy_conc.rs (own app on the legacy capability API, pausable waker clone)"]
+
 def check_C08(run, replay=None):
     tier = run.tier
     C.proof_stage(run, "C08", extra_targets=["Conc/Check.vo"])
@@ -199,6 +220,8 @@ def check_C08(run, replay=None):
         bad_model.sort(key=lambda c: len(c["sched"]))
         run.violation("correspondence", {"property": "C08", "what": "model and implementation differ on a controlled interleaving; the outcome predicates still hold on every implementation run seen",
                                          "cases": [slim(c) for c in bad_model[:10]], "broken": "correspondence Conc/*.v vs crux_core under the schedule controller"}, no_input=True)
+    if not replay:
+        legacy_stream_stage(run, 3 if run.tier == "quick" else 25)
     run.cov["rule"] = ("corpus schedules first; then depth-first enumeration of every interleaving (thread released at each schedule point) with at most k preemptions of each scenario "
                        "(quick: k=3 for P2, k=2 for the Core-level scenarios under the P3 and P1 park sets, two callers; thorough: three-caller scenarios, larger k, the full P1 point set, and seeded random schedules); "
                        "a case is distinct by its sequence of (thread, point) events and non-trivial when some thread is preempted between two of its points (the run is not a sequential composition of the calls)")
